@@ -197,6 +197,11 @@ func main() {
 		// swept quiet here cannot raise an alarm merely because another machine is faster
 		maxRuns = info.QuickRuns
 	}
+	if budget == 0 && maxRuns == 0 && tier == "thorough" && os.Getenv("VERIF_BUDGET_S") == "" {
+		// thorough tier = the same search over five times the quick range (tier-specific
+		// generator settings such as longer scripts apply), again a fixed set of executions
+		maxRuns = 5 * info.QuickRuns
+	}
 	if budget == 0 {
 		budget = info.QuickS
 		if tier == "thorough" {
